@@ -288,10 +288,31 @@ func (ex *Exec) snapIsFuncMap(snap interface{}, t types.Type, key string) bool {
 	if !ok {
 		return false
 	}
-	if _, isFunc := mt.Elem().Underlying().(*types.Signature); !isFunc {
+	if !typeContainsFunc(mt.Elem(), 0) {
 		return false
 	}
 	return !ex.globalInitFailed[key]
+}
+
+// typeContainsFunc: a value of the type holds a func somewhere (directly, in a struct field or an
+// array element) - the reflection snapshot cannot carry it.
+func typeContainsFunc(t types.Type, depth int) bool {
+	if depth > 4 {
+		return false
+	}
+	switch u := t.Underlying().(type) {
+	case *types.Signature:
+		return true
+	case *types.Struct:
+		for i := 0; i < u.NumFields(); i++ {
+			if typeContainsFunc(u.Field(i).Type(), depth+1) {
+				return true
+			}
+		}
+	case *types.Array:
+		return typeContainsFunc(u.Elem(), depth+1)
+	}
+	return false
 }
 
 func refersTo(fn *ssa.Function, g *ssa.Global, depth int) bool {
